@@ -30,10 +30,12 @@ type readScn struct {
 	Peer      []peerAct  `json:"peer"`
 	Fires     int        `json:"fires"`
 	UserClose bool       `json:"user_close,omitempty"`
+	// BufSize > 0: Config.BufferSize - the first input node is this small, reads cross node boundaries early
+	BufSize int `json:"bufsize,omitempty"`
 }
 
 func genReadScn(t *rapid.T, excl map[string]bool) readScn {
-	s := readScn{}
+	s := readScn{BufSize: rapid.SampledFrom([]int{0, 0, 0, 64, 512}).Draw(t, "bufsize")}
 	s.FDConn = rapid.IntRange(0, 3).Draw(t, "fdconn") == 0
 	nc := rapid.IntRange(1, 4).Draw(t, "ncalls")
 	total := 0
@@ -101,6 +103,11 @@ func runRead(t *rapid.T, s readScn, replay []vs.Step) *readOutcome {
 	o := &readOutcome{w: w}
 	r, wfd := w.socketpair()
 	var c *connection
+	if s.BufSize > 0 {
+		old := defaultLinkBufferSize
+		defaultLinkBufferSize = s.BufSize
+		defer func() { defaultLinkBufferSize = old }()
+	}
 	if s.FDConn {
 		cc, err := NewFDConnection(r)
 		if err != nil {
